@@ -99,3 +99,69 @@ Theorem C03_one_byte_reads_refuted :
   /\ reader_run GenGroups.table beginstring [] [ex_FA] = ([], [(ex_dA, ex_FA)], [0]).
 Proof. exact one_byte_reads_refuted. Qed.
 Print Assumptions C03_one_byte_reads_refuted.
+
+(* ---- last clause of C03: marker-free bytes between frames ----
+   FULL STATEMENT (false of the code: C03_garbage_refuted, C03_junk_prefix_cut_refuted): marker-free bytes
+   anywhere between two frames are skipped and no adjacent frame is lost.  PROVED: the three statements below. *)
+
+(* (1) reads made only of marker-free bytes that arrive at a frame boundary with an empty buffer are
+   consumed entirely and change nothing.  The stream is cut at arbitrary frame boundaries into blocks;
+   enc_block_ok: the frames of a block are encoder frames, the chunks of the block are a chunking of exactly
+   these frames with no_cut_inside_marker, and the junk reads after the block contain no "8=FIX.".
+   No further condition on the junk: it may be empty, may end in a proper prefix of the marker. *)
+Theorem C03_junk_reads_skipped : forall G bs (blocks : list block),
+  wf_table G = true -> Forall (enc_block_ok G bs) blocks ->
+  reader_run G bs [] (concat (map block_reads blocks))
+  = ([], map delivered (concat (map block_frames blocks)), map (fun _ => 0) (concat (map block_reads blocks))).
+Proof. exact junk_reads_skipped_enc. Qed.
+Print Assumptions C03_junk_reads_skipped.
+
+(* (2) one read (on any buffer) whose buffer content is  J ++ whole frames ++ P  with J marker-free:
+   - at least one whole frame: J is skipped with the first frame (consumed = |J| + |frame|), all frames are
+     delivered, P (nothing, or >= 6 bytes of an incomplete frame) stays in the buffer;
+   - no whole frame: J is dropped and P waits, exactly when  |J| + |P| < |frame of P|  (or P is empty). *)
+Theorem C03_junk_prefix_same_read : forall G bs buf chunk J fms P,
+  wf_table G = true -> find_sub MARK J = None -> Forall (encoder_frame G bs) fms ->
+  enc_junk_tail_ok G bs J fms P -> buf ++ chunk = J ++ concat (map fst fms) ++ P ->
+  reader_step G bs buf chunk = (P, map delivered fms, 0).
+Proof. exact junk_prefix_same_read_enc. Qed.
+Print Assumptions C03_junk_prefix_same_read.
+
+(* ... and for whole runs: every read is marker-free junk (possibly empty) followed by whole frames
+   (possibly none) *)
+Theorem C03_junk_prefix_whole_frames : forall G bs (groups : list (str * list (str * message))),
+  wf_table G = true ->
+  Forall (fun g => find_sub MARK (fst g) = None /\ Forall (encoder_frame G bs) (snd g)) groups ->
+  reader_run G bs [] (map (fun g => fst g ++ concat (map fst (snd g))) groups)
+  = ([], map delivered (concat (map snd groups)), map (fun _ => 0) groups).
+Proof. exact junk_prefix_whole_frames_enc. Qed.
+Print Assumptions C03_junk_prefix_whole_frames.
+
+Theorem C03_junk_nonvacuous :
+  let j2 : str := [120; 56; 61; 70; 73] in
+  find_sub MARK j2 = None
+  /\ reader_run GenGroups.table beginstring []
+       (concat (map block_reads
+          [([], [], [ex_garbage; j2]);
+           ([(ex_FA, ex_dA)], [firstn 11 ex_FA; skipn 11 ex_FA], [j2]);
+           ([(ex_FB, ex_dB)], [ex_FB], [ex_garbage; ex_garbage])]))
+     = ([], [(ex_dA, ex_FA); (ex_dB, ex_FB)], [0; 0; 0; 0; 0; 0; 0; 0])
+  /\ reader_step GenGroups.table beginstring [] (j2 ++ ex_FA ++ ex_FB ++ firstn 10 ex_FA)
+     = (firstn 10 ex_FA, [(ex_dA, ex_FA); (ex_dB, ex_FB)], 0)
+  /\ reader_step GenGroups.table beginstring [] (ex_garbage ++ firstn 83 ex_FA) = (firstn 83 ex_FA, [], 0).
+Proof. exact junk_nonvacuous. Qed.
+Print Assumptions C03_junk_nonvacuous.
+
+(* (3) D8-junk-prefix-counted-in-length: junk J (3 bytes) in front of a frame cut k bytes before its end,
+   2 <= k <= |J|: the frame is lost; k = |J| + 1 waits correctly; whole frames behind junk are fine *)
+Theorem C03_junk_prefix_cut_refuted : forall k, In k [2; 3]%nat ->
+  find_sub MARK ex_garbage = None /\ length ex_garbage = 3%nat /\ length ex_FA = 87%nat
+  /\ reader_run GenGroups.table beginstring []
+       [ex_garbage ++ firstn (87 - k) ex_FA; skipn (87 - k) ex_FA ++ ex_FB] = ([], [(ex_dB, ex_FB)], [0; 0])
+  /\ reader_run GenGroups.table beginstring []
+       [ex_garbage ++ firstn (87 - 4) ex_FA; skipn (87 - 4) ex_FA ++ ex_FB]
+     = ([], [(ex_dA, ex_FA); (ex_dB, ex_FB)], [0; 0])
+  /\ reader_run GenGroups.table beginstring [] [ex_garbage ++ ex_FA ++ ex_FB]
+     = ([], [(ex_dA, ex_FA); (ex_dB, ex_FB)], [0]).
+Proof. exact junk_prefix_cut_refuted. Qed.
+Print Assumptions C03_junk_prefix_cut_refuted.
